@@ -88,9 +88,10 @@ def gen_responses(r: random.Random) -> list:
         keys.append(r.choice(KEYS_BAD))
     r.shuffle(keys)
     out = []
-    # a streaming response next to a second numeric 2xx response breaks the module: keep that to a minority
+    # a streaming response next to a second numeric 2xx response used to break the module (F35, repaired: the other arm
+    # yields its value once / ends the stream): half of the operations with several 2xx responses may stream
     n2 = sum(1 for k2 in keys if k2.isdigit() and k2[0] == "2")
-    allow_stream = n2 <= 1 or r.random() < 0.15
+    allow_stream = n2 <= 1 or r.random() < 0.5
     for key in dict.fromkeys(keys):
         if key.isdigit() and key[0] != "2":
             content = gen_content(r, multi_ok=False) if r.random() < 0.3 else []
@@ -341,6 +342,8 @@ def reply_body(pred: dict, rp: dict) -> dict:
     raw = b"{}"
     if pred.get("k") == "returned":
         ret = pred["ret"]
+        if ret["k"] == "yieldOnce":       # the arm of another 2xx response in a streaming method: the body its value is decoded from
+            ret = ret["item"]
         k = ret["k"]
         if k == "structure":
             raw = b"{}" if ret["ty"]["k"] == "model" else b"[{}]"
@@ -350,6 +353,8 @@ def reply_body(pred: dict, rp: dict) -> dict:
             raw = b"he\"llo"
         elif k == "content":
             raw = b"\x00\x01raw"
+        elif k == "streamEnd":
+            raw = b"data: {\"i\": 1}\n\n"      # an ordinary body that every stream parser would turn into an item (or choke on)
         elif k == "streamBytes":
             return {"status": status, "headers": headers, "chunks_b64": [b64(b"abc"), b64(b"de")], "raw": "abcde"}
         elif k == "streamSse":
@@ -425,6 +430,17 @@ ERR_TYPES = {"typeError": ["TypeError"], "nameError": ["NameError", "UnboundLoca
              "headerTypeError": ["TypeError"], "cookieTypeError": ["TypeError"], "moduleError": ["SyntaxError", "ImportError", "ModuleNotFoundError", "IndentationError"]}
 
 
+def ret_label(ret: dict) -> str:
+    rk = ret["k"]
+    if rk == "structure":
+        return f"{ret['ty']['k']}:{ret['ty']['n']}"
+    if rk == "cast":
+        return "json"
+    if rk == "yieldOnce":
+        return "yieldOnce(" + ret_label(ret["item"]) + ")"
+    return rk
+
+
 def expected_outcome(pred: dict) -> dict:
     k = pred["k"]
     if k == "moduleError":
@@ -432,45 +448,45 @@ def expected_outcome(pred: dict) -> dict:
     if k == "nameError":
         return {"kind": "nameError"}
     if k == "returned":
-        ret = pred["ret"]
-        rk = ret["k"]
-        if rk == "structure":
-            return {"kind": "returned", "ret": f"{ret['ty']['k']}:{ret['ty']['n']}"}
-        if rk == "cast":
-            return {"kind": "returned", "ret": "json"}
-        return {"kind": "returned", "ret": rk}
+        return {"kind": "returned", "ret": ret_label(pred["ret"])}
     return {"kind": "raised", "name": pred["name"], "isClient": pred["isClient"], "isServer": pred["isServer"], "status": pred["status"],
             "response": pred["response"], "why": pred["why"]}
+
+
+def value_label(tag, val, raw: str) -> str:
+    """What kind of value came back (returned, or yielded as the only item of a stream), judged against the body sent."""
+    if tag == "None":
+        return "none"
+    if tag.startswith("dataclass:"):
+        return "model:" + tag.split(":", 1)[1]
+    if tag.startswith("list[dataclass:"):
+        return "listModel:" + tag[len("list[dataclass:"):-1]
+    if isinstance(val, dict) and "__bytes__" in val:
+        return "content" if base64.b64decode(val["__bytes__"]).decode("latin-1") == raw else "bytes?"
+    try:
+        parsed = json.loads(raw)
+        is_json = True
+    except ValueError:
+        parsed, is_json = None, False
+    if is_json and val == parsed:
+        return "json"
+    if tag == "str" and val == raw:
+        return "text"
+    return f"?{tag}"
 
 
 def observed_outcome(oc: dict, reply: dict) -> dict:
     k = oc.get("kind")
     raw = reply.get("raw", "")
     if k == "returned":
-        tag, val = oc.get("type"), oc.get("json")
-        if tag == "None":
-            ret = "none"
-        elif tag.startswith("dataclass:"):
-            ret = "model:" + tag.split(":", 1)[1]
-        elif tag.startswith("list[dataclass:"):
-            ret = "listModel:" + tag[len("list[dataclass:"):-1]
-        elif isinstance(val, dict) and "__bytes__" in val:
-            ret = "content" if base64.b64decode(val["__bytes__"]).decode("latin-1") == raw else "bytes?"
-        else:
-            try:
-                parsed = json.loads(raw)
-                is_json = True
-            except ValueError:
-                parsed, is_json = None, False
-            if is_json and val == parsed:
-                ret = "json"
-            elif tag == "str" and val == raw:
-                ret = "text"
-            else:
-                ret = f"?{tag}"
-        return {"kind": "returned", "ret": ret}
+        return {"kind": "returned", "ret": value_label(oc.get("type"), oc.get("json"), raw)}
     if k == "stream":
         items = oc.get("items", [])
+        if not items and "chunks_b64" not in reply:
+            return {"kind": "returned", "ret": "streamEnd"}      # an async iterator without items, no stream was sent
+        if len(items) == 1 and "chunks_b64" not in reply:
+            # one item and the reply was an ordinary body: the arm of another 2xx response of a streaming method
+            return {"kind": "returned", "ret": "yieldOnce(" + value_label((oc.get("types") or ["?"])[0], items[0], raw) + ")"}
         if items and all(isinstance(i, dict) and "__bytes__" in i for i in items):
             return {"kind": "returned", "ret": "streamBytes"}
         if items == [{"j": 1}, {"j": 2}]:
